@@ -3,7 +3,7 @@
    along one history; events carry the SHA-256 digest of the raw result.  A disabled SeededCall / PassGenerator event is a
    reproducibility violation.  "valid" events carry the outputs of the DISCRETE generators, whose membership in the
    advertised set is decided exactly here. *)
-EXTENDS Rng, GF2, Json, IOUtils
+EXTENDS Rng, GF2, Sets, Json, IOUtils
 Traces == JsonDeserialize(IOEnv.TRACE_FILE)
 VARIABLES tid, l
 Ev == Traces[tid][l]
@@ -21,6 +21,7 @@ ValidOK(e) ==
                               (e.herm = "True" => herm) /\ (e.herm = "False" => ~herm)
     [] e.kind = "adjacent" -> /\ Len(e.rows) = e.n
                               /\ \A i, j \in 1..e.n : e.rows[i][j] \in {0, 1} /\ e.rows[i][j] = e.rows[j][i] /\ e.rows[i][i] = 0
+    [] e.kind = "cont" -> ContOK(e)                 \* continuous outputs: membership claims on the rounded values (Sets.tla)
     [] OTHER -> FALSE
 EvG == /\ Ev.op \in {"gseed", "gdraw"}
        /\ IF Ev.op = "gseed" THEN GlobalSeed(Ev.lib, 7) ELSE GlobalDraw(Ev.lib)
@@ -34,7 +35,12 @@ Reset == glob' = [k \in Libs |-> [seed |-> 0, pos |-> 0]] /\ memo' = [s \in Seed
 Consume == l <= Len(Traces[tid]) /\ Step /\ l' = l + 1 /\ tid' = tid
 Finish == /\ l = Len(Traces[tid]) + 1 /\ TLCSet(1, TLCGet(1) + 1)
           /\ tid < Len(Traces) /\ tid' = tid + 1 /\ l' = 1 /\ Reset
-Stuck == /\ l <= Len(Traces[tid]) /\ ~ENABLED Step /\ PrintT(<<"REJECT", tid, l, Ev.op>>)
+\* name of the failing membership claim (evaluated for rejected events only)
+Why == IF Ev.op = "valid" /\ Ev.kind = "cont"
+       THEN (IF ~(Required(Ev.fn, Ev.a) \subseteq {Ev.claims[i].c : i \in 1..Len(Ev.claims)}) THEN "a required claim is missing"
+             ELSE Ev.claims[CHOOSE i \in 1..Len(Ev.claims) : ~ClaimOK(Ev.claims[i], Ev.S)].c)
+       ELSE Ev.op
+Stuck == /\ l <= Len(Traces[tid]) /\ ~ENABLED Step /\ PrintT(<<"REJECT", tid, l, Ev.op, Why>>)
          /\ tid < Len(Traces) /\ tid' = tid + 1 /\ l' = 1 /\ Reset
 Next == Consume \/ Finish \/ Stuck
 Spec == Init /\ [][Next]_<<tid, l, glob, memo, memoG>>
